@@ -169,8 +169,11 @@ func (s *Sequencer) GetNextBatch(ctx context.Context, req coresequencer.GetNextB
 		lastDAHeight = lastBatchScanned
 		nextDAHeight = lastDAHeight + 1
 	}
+	// What is still queued was found on the DA layer before anything a further
+	// scan can find: while the queue is not empty (its head did not fit into
+	// this batch) nothing may be scanned into the batch behind it.
 OuterLoop:
-	for size < maxBytes {
+	for size < maxBytes && s.pendingTxs.Len() == 0 {
 		// if we have exceeded maxHeightDrift, stop fetching more transactions
 		if nextDAHeight > lastDAHeight+s.maxHeightDrift {
 			s.logger.Debug("exceeded max height drift, stopping fetching more transactions")
